@@ -157,16 +157,10 @@ std::string op_parse_more(std::string const &_op, line_t const &L)
   }
   if (_op == "parserepplus")
   {
-    // DEFECT CANDIDATE 2 (notes/C05.md): repetition_plus builds `result_type{std::move(first)}` - an initializer_list, whose
-    // element is copied - so `+p` does not compile for a move-only result type; the row is not in the batches of props/c05.py
-    if constexpr (T::copyable)
-    {
-      auto const p{+one('x')};
-      auto const r{fp::parse_string(p, std::string{input})};
-      return fin(done(r, [](slots_t &s, std::vector<T> const &v) { s.add_range(v); }));
-    }
-    else
-      throw bad_op{};
+    // since /repo fix aef45df the first result is moved (container::make) instead of copied through an initializer_list
+    auto const p{+one('x')};
+    auto const r{fp::parse_string(p, std::string{input})};
+    return fin(done(r, [](slots_t &s, std::vector<T> const &v) { s.add_range(v); }));
   }
   throw bad_op{};
 }
